@@ -599,30 +599,34 @@ func main() {
 	// ---- TlsDefaults.lean: apply the real functions to a zero and to an adversarial config
 	var t strings.Builder
 	t.WriteString("-- GENERATED by kvreflect: results of the real DefaultServerTLSConfig / DefaultClientTLSConfig; DO NOT EDIT.\nnamespace KmipGen\n\n")
-	t.WriteString("/-- (probe, role, MinVersion, MaxVersion, ClientAuth, InsecureSkipVerify, PreferServerCipherSuites) after the call -/\ndef tlsDefaults : List (String × String × Nat × Nat × Nat × Bool × Bool) := [\n")
+	t.WriteString("/-- (role, (MinVersion, MaxVersion, ClientAuth, InsecureSkipVerify, PreferServerCipherSuites) before, the same after the call) -/\ndef tlsDefaults : List (String × (Nat × Nat × Nat × Bool × Bool) × (Nat × Nat × Nat × Bool × Bool)) := [\n")
 	rows = nil
-	probes := []struct {
-		name string
-		mk   func() *tls.Config
-	}{
-		{"zero", func() *tls.Config { return &tls.Config{} }},
-		{"weak", func() *tls.Config {
-			return &tls.Config{MinVersion: tls.VersionTLS10, ClientAuth: tls.NoClientCert}
-		}},
-		{"weak2", func() *tls.Config {
-			return &tls.Config{MinVersion: tls.VersionTLS11, ClientAuth: tls.RequestClientCert, MaxVersion: 0}
-		}},
-		{"strong", func() *tls.Config {
-			return &tls.Config{MinVersion: tls.VersionTLS13, ClientAuth: tls.RequireAndVerifyClientCert}
-		}},
+	tup := func(c *tls.Config) string {
+		return fmt.Sprintf("(0x%04x, 0x%04x, %d, %v, %v)", c.MinVersion, c.MaxVersion, int(c.ClientAuth), c.InsecureSkipVerify, c.PreferServerCipherSuites)
 	}
-	for _, p := range probes {
-		s := p.mk()
+	probes := []func() *tls.Config{
+		func() *tls.Config { return &tls.Config{} },
+		func() *tls.Config { return &tls.Config{MinVersion: tls.VersionTLS10, ClientAuth: tls.NoClientCert} },
+		func() *tls.Config {
+			return &tls.Config{MinVersion: tls.VersionTLS11, ClientAuth: tls.RequestClientCert, MaxVersion: tls.VersionTLS13}
+		},
+		func() *tls.Config {
+			return &tls.Config{MinVersion: tls.VersionTLS13, ClientAuth: tls.RequireAndVerifyClientCert, PreferServerCipherSuites: true}
+		},
+		func() *tls.Config {
+			return &tls.Config{MinVersion: tls.VersionTLS10, ClientAuth: tls.VerifyClientCertIfGiven, InsecureSkipVerify: true, MaxVersion: tls.VersionTLS12}
+		},
+		func() *tls.Config { return &tls.Config{ClientAuth: tls.RequireAnyClientCert, MinVersion: 0x0300} },
+	}
+	for _, mk := range probes {
+		s := mk()
+		before := tup(s)
 		kmip.DefaultServerTLSConfig(s)
-		rows = append(rows, fmt.Sprintf("  (%s, \"server\", 0x%04x, 0x%04x, %d, %v, %v)", leanStr(p.name), s.MinVersion, s.MaxVersion, int(s.ClientAuth), s.InsecureSkipVerify, s.PreferServerCipherSuites))
-		cl := p.mk()
+		rows = append(rows, fmt.Sprintf("  (\"server\", %s, %s)", before, tup(s)))
+		cl := mk()
+		before = tup(cl)
 		kmip.DefaultClientTLSConfig(cl)
-		rows = append(rows, fmt.Sprintf("  (%s, \"client\", 0x%04x, 0x%04x, %d, %v, %v)", leanStr(p.name), cl.MinVersion, cl.MaxVersion, int(cl.ClientAuth), cl.InsecureSkipVerify, cl.PreferServerCipherSuites))
+		rows = append(rows, fmt.Sprintf("  (\"client\", %s, %s)", before, tup(cl)))
 	}
 	t.WriteString(strings.Join(rows, ",\n"))
 	t.WriteString("\n]\n\n")
